@@ -68,7 +68,10 @@ def work(desc: dict) -> Optional[dict]:
     want_samples = desc.get('samples', True)
     want_windows = desc.get('windows', True)
     try:
-        obs = ptgen.observe(case, rng, grid=desc.get('grid'), want_samples=want_samples, want_windows=want_windows)
+        grid = desc.get('grid')
+        if grid is None and case.get('grid'):
+            grid = [F(x) for x in case['grid']]       # a family that chooses its own sample times
+        obs = ptgen.observe(case, rng, grid=grid, want_samples=want_samples, want_windows=want_windows)
     except core.MachineryError:
         raise
     pt = obs['pt']
